@@ -59,6 +59,18 @@ def cases(rng, tier):
         d = pos_data(f)
         cs.append(C.Case("layout_packets", [f, t, z, nsub, al] + d))
         cs.append(C.Case("layout_roundtrip", [f, t, z, nsub, al, rng.below(50)] + d))
+    # the decoder must invert the layout also for symbols it REBUILDS (lost source symbols, N > 1), on both
+    # solver paths: with little overhead (standard path) and with >= H symbols of overhead in one call (binary path)
+    from props import codecgen as CG
+    for _ in range(12 if tier == "quick" else 120):
+        al = rng.choice([1, 2, 4])
+        q = rng.choice([3, 5, 7])
+        t = al * q
+        nsub = rng.choice([2, 3, q])
+        k = rng.range(4, 30)
+        for extra in (1, 12):
+            esis = rng.shuffle(CG.block_esis(rng, k, extra, rng.choice([0.3, 0.6])))
+            cs.append(CG.sbd_case(rng, k, t, nsub, al, rng.choice([0, 1, 251]), [esis], pos_data(k * t)))
     # malformed stream: Al does not divide T, Z = 0, N = 0, N > T/Al
     for (f, t, z, nsub, al) in [(100, 10, 1, 1, 4), (100, 8, 0, 1, 1), (100, 8, 1, 0, 1), (100, 8, 1, 9, 1), (100, 8, 1, 5, 2), (50, 8, 9, 1, 1)]:
         cs.append(C.Case("layout_packets", [f, t, z, nsub, al] + pos_data(f), tag="malformed"))
@@ -84,6 +96,13 @@ def evaluate(cases, rep, tier):
             want = "1 1" + "".join(f" {b}" for b in c.args[6:6 + f])
             if i != want:
                 counter.append({"input": c.impl_line(), "expected": "the original object", "observed": i[:400], "oracle": "decoder inverts the layout"})
+    for c, i in zip(cases, impl):
+        if c.fn == "sbd_hist":
+            k, t = c.args[0], c.args[1]
+            tok = i.split()
+            if tok[:2] == ["1", "1"] and [int(x) for x in tok[2:]] != c.args[-k * t:]:
+                counter.append({"input": c.impl_line()[:700], "expected": "the block bytes (lost symbols rebuilt and un-interleaved)", "observed": " ".join(tok[2:40]), "oracle": "decoder inverts the layout for rebuilt symbols"})
+    cases = [c for c in cases if c.fn != "sbd_hist"] + []
     nt = len(set(c.key() for c in cases if in_domain(c) and (c.args[2] > 1 or c.args[3] > 1 or c.args[0] % c.args[1])))
     dist = {"Z>1": sum(1 for c in cases if c.args[2] > 1), "N>1": sum(1 for c in cases if c.args[3] > 1),
             "padded": sum(1 for c in cases if c.args[1] and c.args[0] % c.args[1]), "malformed": sum(1 for c in cases if c.tag == "malformed")}
